@@ -78,6 +78,10 @@ func DriveC13(t *tr.W, thorough bool) {
 			[]Behaviour{honest(), honest(), honest()}, "direct", 0},
 		{"ipv6-same-ip-lie", []string{"[2001:db8:0:1::9]:18444", "[2001:db8:0:1::9]:18445", "10.0.0.7:18444"},
 			[]Behaviour{{Kind: "liarCFHeaders", H: 1 << 20, Variant: "inconsistent"}, honest(), honest()}, "lie", 0},
+		// the liar's address is not an IP literal (a tor peer): the ban cannot be recorded, the peer must go all
+		// the same (BanPeer disconnects regardless of whether the ban could be recorded)
+		{"nonip-lie", []string{"abcdefghijklmnop.onion:18444", "10.0.0.7:18444", "10.0.0.8:18444"},
+			[]Behaviour{{Kind: "liarCFHeaders", H: 1 << 20, Variant: "inconsistent"}, honest(), honest()}, "lie-nonip", 0},
 		// a second connection to the banned IP is still in its version handshake when the first one is banned
 		// (directly / for a lie) and completes it afterwards: handleAddPeerMsg must turn it away
 		{"handshake-race-direct", []string{"10.0.0.5:18444", "10.0.0.7:18444", "10.0.0.5:18445"},
@@ -94,7 +98,7 @@ func DriveC13(t *tr.W, thorough bool) {
 	for _, v := range vs {
 		l := 20 + rng.Intn(20)
 		sc := Scenario{Name: v.name, Len: l, Peers: v.peers, Addrs: v.addrs, Barrier: v.hold == 0}
-		if v.how == "lie" {
+		if v.how == "lie" || v.how == "lie-nonip" {
 			sc.Peers[0].H = l + 1
 		}
 		t.Case("c13 %s len %d npeers %d", v.name, l, len(v.peers))
@@ -150,6 +154,18 @@ func DriveC13(t *tr.W, thorough bool) {
 			t.Op("grow 1", fmt.Sprintf("honest %d:%s", nt.Height, nt.ID))
 			s.announce(false)
 			s.waitFor(6*time.Second, func(o Obs) bool { return contains(o.Banned, 0) })
+		case "lie-nonip":
+			nt := s.W.Extend(s.W.Honest(), 1, "t")
+			s.W.SetHonest(nt)
+			t.Op("grow 1", fmt.Sprintf("honest %d:%s", nt.Height, nt.ID))
+			s.announce(false)
+			// the lie is served and found out; the liar is dropped (it is a persistent peer and not banned, so it
+			// will be dialled again later: observe at once)
+			liar := s.Peers[0]
+			s.waitFor(4*time.Second, func(o Obs) bool {
+				return atomic.LoadInt32(&liar.Lied) > 0 && s.converged(o) && !contains(o.Conn, 0)
+			})
+			t.Op("misbehaved 0", fmt.Sprintf("lied %d nonip", atomic.LoadInt32(&liar.Lied)))
 		}
 		// the disconnect of banned peers is asynchronous: give it a bounded time
 		clean := func(o Obs) bool {
@@ -160,7 +176,9 @@ func DriveC13(t *tr.W, thorough bool) {
 			}
 			return len(o.Banned) > 0
 		}
-		s.waitFor(1500*time.Millisecond, clean)
+		if v.how != "lie-nonip" {
+			s.waitFor(1500*time.Millisecond, clean)
+		}
 		if held != nil {
 			// the ban is in place: the held connection now finishes its handshake
 			isHeld := atomic.LoadInt32(&held.Held) == 1
